@@ -104,7 +104,7 @@ class Checker(C.BaseChecker):
                  sample={"kind": st.kind, "history": st.history, "status": st.status})  # fmt: skip
 
         # ---- (0) attach / detach: accepted exactly when allowed ---------------------------------
-        if opk == "attach" and st.pred != "err":
+        if opk == "attach" and st.pred not in ("err", "?"):
             sname = op[2]
             if st.pred == "ok":
                 if st.status != "ok":
@@ -127,7 +127,7 @@ class Checker(C.BaseChecker):
 
         # ---- (1) what is attached (raw tree) == model -----------------------------------------------
         S = st.scan
-        raw_att = C.attached_of_scan(S)
+        raw_att = {p: d for p, d in C.attached_of_scan(S).items() if p not in S.get("stray_nodes", {})}  # junk below reserved names: C08/C06
         exp_att = model.attached()
         copied = set(st.created_by_copy or ())
         for p in sorted(set(raw_att) | set(exp_att)):
@@ -384,9 +384,17 @@ RULE = (
 )
 
 
+PLAN = {
+    "quick": [("sweep", "h5", 13), ("sweep", "ih5", 6), ("toggle", "h5", 7), ("toggle", "ih5", 4), ("tree", "h5", 5), ("tree", "ih5", 3),
+              ("general", "h5", 6), ("general", "ih5", 3), ("walk", "both", 2)],
+    "thorough": [("sweep", "h5", 50), ("sweep", "ih5", 80), ("toggle", "h5", 70), ("toggle", "ih5", 70), ("tree", "h5", 50), ("tree", "ih5", 50),
+                 ("general", "h5", 70), ("general", "ih5", 40), ("walk", "both", 55)],
+}  # fmt: skip
+
+
 def run(tier: str, seed: int) -> dict:
     return C.run_driver(
-        Checker, tier, seed, RULE,
+        Checker, tier, seed, RULE, plan=PLAN["quick" if tier == "quick" else "thorough"],
         assumptions=[
             "version compatibility = requested.supports(stored): same major, requested minor >= stored minor, patch ignored (property text + PluginRef.supports docstring)",
             "get() by an auxiliary ancestor or by a version that no installed schema supports is outside the precondition and not exercised; query() with such arguments is exercised (no parsing involved)",
